@@ -166,6 +166,63 @@ theorem train_total_reuse (f : Flags) (rounds : List Bool) :
   · intro b; cases b <;> flag_cases f
   · flag_cases f
 
+/-! ## Two-run history into the SAME folder: run B started where run A finished
+
+`fA`/`rA`: any fresh run A; `fB`/`rB`: any fresh run B (other model type, flags, configuration)
+with the same `save_ckpt_path` and `np_chunks_path`.  The file system before B's first write is
+A's final state with A's configurations marked `stale` (`sameStart`); a crash in B leaves A's
+files mixed with B's.  B's checkpoints go to `best-v1.ckpt` / `last-v1.ckpt` when A left
+checkpoints (what the installed Lightning does), otherwise to `best.ckpt` / `last.ckpt`. -/
+
+/-- **The key is never persisted**, same-folder history: at every crash point of run B no file —
+neither one A left nor one B has written so far — holds the key. -/
+theorem no_key_at_any_crash_point_same_folder (fA : Flags) (rA : List Bool) (fB : Flags)
+    (rB : List Bool) (n : Nat) (p : Path) (c : Content)
+    (hc : fsSameAt .repaired fA rA fB rB n p = some c) : c.keyBlank = true := by
+  have h0 : (sameStart .repaired fA rA).Blank :=
+    age_blank (fsFrom_blank _ FS.empty FS.blank_empty (all_blank_traceG fA rA))
+  exact fsFrom_blank ((traceS .repaired fA.ckpt fB rB).take n) _ h0
+    (fun e he => all_blank_traceS fA.ckpt fB rB e (List.mem_of_mem_take he)) p c hc
+
+example : fsSameAt .repaired ⟨.centeredInstance, .npChunks, false, true, false, false⟩ [true]
+    ⟨.centroid, .torchDataset, true, true, true, true⟩ [true] 1 .trainingCfg
+    = some (cfg .stale true false) := by decide
+
+/-- **Full artefacts** after run B: the config files describe **B** (initial = B's supplied
+configuration, final = the one B used — not A's stale ones); B's checkpoint exists iff B
+checkpoints; A's checkpoints are still there, key-blank; the chunks `config.yaml` is B's if B uses
+the chunk framework (else A's stale one, if any); chunk files are gone iff B (chunk framework)
+requested deletion — a B without chunks leaves A's chunk files as they were. -/
+theorem artefacts_complete_same_folder (fA : Flags) (rsA : List Bool) (fB : Flags) (rsB : List Bool) :
+    let fs := fsSameAfter .repaired fA (true :: rsA) fB (true :: rsB)
+    fs .initialCfg = some (cfg .supplied true false) ∧
+    fs .trainingCfg = some (cfg .used true fB.wandb) ∧
+    fs (bestPath fA.ckpt) = (if fB.ckpt then some (cfg .used true false) else none) ∧
+    fs (lastPath fA.ckpt) = (if fB.ckpt then some (cfg .used true false) else none) ∧
+    (fA.ckpt = true → fs .bestCkpt = some (cfg .stale true false) ∧
+                      fs .lastCkpt = some (cfg .stale true false)) ∧
+    fs .chunksCfg = (if fB.fw = .npChunks then some (cfg .prepared true false)
+                     else if fA.fw = .npChunks then some (cfg .stale true false) else none) ∧
+    fs .trainChunks = (if fB.fw = .npChunks then (if fB.deleteChunks then none else some .data)
+                       else if fA.fw = .npChunks ∧ ¬ fA.deleteChunks then some .data else none) ∧
+    fs .valChunks = (if fB.fw = .npChunks then (if fB.deleteChunks then none else some .data)
+                     else if fA.fw = .npChunks ∧ ¬ fA.deleteChunks then some .data else none) := by
+  simp only [fsSameAfter, sameStart]
+  rw [fsAfter_repaired_eq, fsFrom_traceS_any_epochs]
+  rcases fA with ⟨mA, fwA, wA, cA, sA, dA⟩
+  simp only
+  cases fwA <;> cases wA <;> cases cA <;> cases dA <;> flag_cases fB
+
+/-- **Run B completes** (repaired code). -/
+theorem train_total_same_folder (a : Bool) (f : Flags) (rounds : List Bool) :
+    ∀ e ∈ traceS .repaired a f rounds, e.isRaise = false := by
+  refine forall_mem_traceS _ a f rounds ?_ ?_ ?_ ?_ ?_
+  · flag_cases f
+  · flag_cases f
+  · flag_cases f
+  · intro b; cases a <;> cases b <;> flag_cases f
+  · flag_cases f
+
 /-! ### Finding F-C19c: bottom-up model + re-used chunks raises (tree with only F-C19/F-C19b repaired) -/
 
 /-- On fresh runs the `keyFixed` tree already behaves as demanded. -/
